@@ -221,12 +221,92 @@ pub fn eval_case(img: &BuiltImage, c: &Case) -> (String, Option<(String, String)
             }
         }
     }
-    if viol.is_some() {
-        drop(db);
-    } else {
-        drop(db);
+    // cursor programs with a change of direction on fresh iterators: seek(t) then backwards to the
+    // start, and seek(t) + one step back then forwards to the end. Each must either report an error
+    // or deliver exactly the model's entries.
+    if viol.is_none() && !lenient {
+        let want: Vec<(Vec<u8>, Vec<u8>)> = img.model.iter().map(|(k, v)| (k.clone(), v.clone())).collect();
+        'targets: for t in img.history.keys.iter() {
+            for back_then_forward in [false, true] {
+                let it = match db.new_iterator(ReadOptions::default()) {
+                    Err(_) => {
+                        errors += 1;
+                        continue;
+                    }
+                    Ok(it) => it,
+                };
+                let mut it: DbIter = Box::new(it);
+                let idx = want.iter().position(|(k, _)| k >= t).unwrap_or(want.len());
+                let (res, expected) = if back_then_forward {
+                    let expected: Vec<(Vec<u8>, Vec<u8>)> = if idx == want.len() {
+                        want[want.len().saturating_sub(1)..].to_vec()
+                    } else if idx == 0 {
+                        vec![]
+                    } else {
+                        want[idx - 1..].to_vec()
+                    };
+                    (zigzag(&mut it, t, true), expected)
+                } else {
+                    let expected: Vec<(Vec<u8>, Vec<u8>)> = if idx == want.len() { vec![] } else { want[..=idx].iter().rev().cloned().collect() };
+                    (zigzag(&mut it, t, false), expected)
+                };
+                match res {
+                    Err(_) => errors += 1,
+                    Ok(kv) => {
+                        if kv != expected {
+                            let only_written = kv.iter().all(|(k, v)| img.written.get(k).map(|s| s.contains(v)).unwrap_or(false));
+                            viol = Some((
+                                if only_written { "C15.scan_silently_stale_or_missing".into() } else { "C15.scan_invented_data".into() },
+                                format!(
+                                    "seek({}) then {} returned [{}] without an error, but on the uncorrupted database it yields [{}]",
+                                    esc(t),
+                                    if back_then_forward { "one step back and forwards to the end" } else { "backwards to the start" },
+                                    kv.iter().map(|(k, v)| format!("{}={}", esc(k), show_val(v))).collect::<Vec<_>>().join(" "),
+                                    expected.iter().map(|(k, v)| format!("{}={}", esc(k), show_val(v))).collect::<Vec<_>>().join(" ")
+                                ),
+                            ));
+                            break 'targets;
+                        }
+                    }
+                }
+            }
+        }
     }
+    drop(db);
     (if errors > 0 { "read_error".into() } else { "all_correct".into() }, viol)
+}
+
+/// seek(t), then either backwards to the start (`back_then_forward` false) or one step back (from
+/// the last entry when the seek ran off the end) and forwards to the end.
+fn zigzag(it: &mut DbIter, t: &[u8], back_then_forward: bool) -> Result<Vec<(Vec<u8>, Vec<u8>)>, String> {
+    let mut out = vec![];
+    it.seek(&t.to_vec()).map_err(|e| e.to_string())?;
+    if back_then_forward {
+        if it.is_valid() {
+            it.prev();
+        } else {
+            if let Some(e) = it.take_error() {
+                return Err(e.to_string());
+            }
+            it.seek_to_last().map_err(|e| e.to_string())?;
+        }
+    }
+    while it.is_valid() {
+        let (k, v) = it.current().ok_or_else(|| "valid iterator without current".to_string())?;
+        out.push((k.clone(), v.clone()));
+        if out.len() > 10_000 {
+            return Err("scan does not terminate".into());
+        }
+        if back_then_forward {
+            it.next();
+        } else {
+            it.prev();
+        }
+    }
+    if let Some(e) = it.take_error() {
+        return Err(e.to_string());
+    }
+    Ok(out)
 }
 
 /// Role of a byte in a log-format file (WAL / manifest), from the documented physical layout.
